@@ -74,7 +74,7 @@ def run(repo: Repo, rep: Report) -> None:
             inst.w.call("active_edges_acyclic", inst.s, act, g)
             refs, cons = ref_acyclic(n, edges)
             same, diff = compare(inst, refs, cons)
-            if n <= 4:
+            if n <= 5:
                 xitems.append((f"graph '{gname}' {edges}", inst, [a for a in inst.arrays if a["user"]][0]["ids"], (lambda n=n, edges=edges: forests(n, edges))))
             if same:
                 n_ok += 1
